@@ -124,6 +124,15 @@ func routeGen(kind string, sequential bool) func(r *rand.Rand, tier string) []sp
 						ID: 4000000 + uint32(len(out))*4 + uint32(k)})
 				}
 			}
+			if kind == "mux" && i%4 == 3 {
+				// ids that were used before: an earlier pair on the id connected and finished; the judged pair's
+				// first half is issued 4 s after that pair's dial and its second half 2 s later, so that
+				// whatever bookkeeping the earlier dial left behind for its 5 s window ends in between
+				for k, side := range []string{"host", "plugin"} {
+					p.Items = append(p.Items, spec.RouteItem{Dir: side, AcceptFirst: (k+i/4)%2 == 0, GapMs: 2000, ReuseAfterMs: 4000, Len: r.Intn(3000),
+						ID: 7000000 + uint32(len(out))*4 + uint32(k)})
+				}
+			}
 			if kind == "mux" {
 				p.DispG, p.DispN = 1+r.Intn(6), 1+r.Intn(5)
 				if wrapIDs {
@@ -349,6 +358,9 @@ func routeJudge(prop string) func(c spec.Case, evs []spec.Event, d *Death) CaseR
 			}
 			if it.LineUp {
 				res.Counters["accepts_lined_up_with_dial_arrival"]++
+			}
+			if it.ReuseAfterMs > 0 {
+				res.Counters["pairs_on_an_id_used_before"]++
 			}
 			if it.ShortConnect {
 				res.Counters["short_connect_timeout_dials"]++
